@@ -37,7 +37,7 @@ def _piece_matches(ctx, R, piece, boxes, tag, what):
 def _split_cases(draw, tier):
     big = tier == "thorough"
     d = draw(gen.spline(kinds=("curve", "surface"), max_p=5 if big else 4, max_extra=5 if big else 4,
-                        affine_range="maybe", normalize="maybe"))
+                        affine_range="maybe", normalize="maybe", long=True))
     pdim = len(d["degree"])
     return {"defn": d, "dir": draw(st.integers(0, pdim - 1)),
             "where": draw(st.one_of(gen.param_desc(), st.just(["start"]), st.just(["end"]))),
